@@ -122,6 +122,11 @@ var limits = []opt{
 	{"2,1", "LIMIT 2, 1"},
 	{"1_offset_2", "LIMIT 1 OFFSET 2"},
 	{"3", "LIMIT 3"},
+	// count 0 with offsets 1 and > rows, in both spellings
+	{"1,0", "LIMIT 1, 0"},
+	{"0_offset_1", "LIMIT 0 OFFSET 1"},
+	{"5,0", "LIMIT 5, 0"},
+	{"0_offset_5", "LIMIT 0 OFFSET 5"},
 }
 
 type fromOpt struct {
